@@ -22,7 +22,10 @@ EXTENDS Cal, Sequences, TLC, Json
 CONSTANTS Spellings,      \* mode spellings offered to SetMode
           Probes,         \* set of [fn, a, b] queries
           Unkeyed,        \* helpers whose memo key omits the mode (design fault when non-empty)
-          MaxDepth        \* bound on the history length
+          MaxDepth,       \* bound on the history length
+          CliOpts,        \* values of --calendar offered to the Cli action ("" = option absent)
+          CliEnvs,        \* values of ISODATETIMECALENDAR ("" = unset)
+          EnvOverridesOption   \* design fault knob for C19: the environment variable wins over the option
 
 VARIABLES mode, cache, pool, out, hist
 vars == <<mode, cache, pool, out, hist>>
@@ -54,10 +57,25 @@ Query(p) ==
   /\ hist' = Append(hist, [op |-> "Query", fn |-> p.fn, a |-> p.a, b |-> p.b])
   /\ UNCHANGED <<mode, pool>>
 
+\* one command-line invocation: the calendar is selected by --calendar, else by the environment variable, else it is
+\* the default - and STAYS selected in the process afterwards; the invocation then computes (here: one query)
+CliChoice(opt, env) == IF EnvOverridesOption THEN (IF env # "" THEN env ELSE IF opt # "" THEN opt ELSE "gregorian")
+                       ELSE (IF opt # "" THEN opt ELSE IF env # "" THEN env ELSE "gregorian")
+Cli(opt, env, p) ==
+  /\ mode' = Meaning(CliChoice(opt, env))
+  /\ LET k == Key(p, mode') IN
+       IF k \in DOMAIN cache
+       THEN out' = [kind |-> "query", p |-> p, val |-> cache[k], opt |-> opt, env |-> env] /\ UNCHANGED cache
+       ELSE /\ out' = [kind |-> "query", p |-> p, val |-> Fresh(mode', p), opt |-> opt, env |-> env]
+            /\ cache' = [kk \in DOMAIN cache \cup {k} |-> IF kk = k THEN Fresh(mode', p) ELSE cache[kk]]
+  /\ hist' = Append(hist, [op |-> "Cli", opt |-> opt, env |-> env, fn |-> p.fn, a |-> p.a, b |-> p.b])
+  /\ UNCHANGED pool
+
 Next ==
   /\ Len(hist) < MaxDepth
   /\ \/ \E sp \in Spellings : SetMode(sp)
      \/ \E p \in Probes : Query(p)
+     \/ \E opt \in CliOpts, env \in CliEnvs, p \in Probes : Cli(opt, env, p)
 
 Spec == Init /\ [][Next]_vars
 
@@ -66,6 +84,9 @@ ModeDetermines == out.kind = "query" => out.val = Fresh(mode, out.p)
 \* the cache only ever holds values that are right for the mode recorded in their key
 CacheSound == \A k \in DOMAIN cache : k[4] # "*" => cache[k] = Fresh(k[4], [fn |-> k[1], a |-> k[2], b |-> k[3]])
 TypeOK == mode \in Modes /\ Len(hist) <= MaxDepth
+\* C19: --calendar / ISODATETIMECALENDAR select what they say (the option first)
+CliSelects == ("opt" \in DOMAIN out) =>
+                mode = Meaning(IF out.opt # "" THEN out.opt ELSE IF out.env # "" THEN out.env ELSE "gregorian")
 
 \* GEN: emit every maximal history TLC explores, for replay into the real library
 EmitGen == Len(hist) = MaxDepth => PrintT(<<"GEN", ToJson(hist)>>)
